@@ -199,6 +199,10 @@ type manifest struct {
 func buildManifest(r *rand.Rand, entries []entry, fancy bool) manifest {
 	x := &ywriter{}
 	m := manifest{Entries: entries}
+	if fancy && r.Intn(6) == 0 {
+		// blank and whitespace-only lines before anything else: every position moves down with them
+		x.put([]string{"\n", "\n\n", "  \n", "\n \n\n"}[r.Intn(4)])
+	}
 	if fancy && r.Intn(4) == 0 {
 		x.put("# comment ü\n")
 	}
